@@ -757,6 +757,8 @@ def gen_case(r, tier):
             d_ = r.randrange(nd)
             if dists[d_]["fam"].startswith("gmrf_") and r.random() < 0.5:
                 N = 3 * max(dists[d_]["n"], 3) + 4          # more draws than noise rows: the noise map is identifiable
+            elif dists[d_]["fam"].startswith("gauss_sparse") and r.random() < 0.2:
+                N = r.choice([1001, 1024, 1500])            # a large batch of draws in one call (sparse solve path)
             ops.append({"op": "a_sample", "d": d_, "N": N, "repeat": r.random() < 0.4})
         elif x < 0.55:
             ops.append({"op": "a_legacy", "kind": r.choice(["ULA", "MALA", "UGLA"]), "N": r.randint(2, 5)})
